@@ -43,12 +43,25 @@ CLAIM = False
 TECHNIQUE = ("Lean 4: case analysis + field arithmetic over exact rationals for calculate/scale (sqrt abstract), refinement of the concrete model to an "
              "extended-value specification, induction over the list of closed positions for the tear-sheet generator (reusing the C17 / C18 refinements); "
              "correspondence of the model with the real metric types and TearSheetGenerator")
-LEVEL_TEXT = ("Sub-check of C16. Lean theorems (lean/BarterModel/Props/C16M.lean) over a function-for-function model of SharpeRatio / SortinoRatio / "
-              "CalmarRatio / RateOfReturn (calculate, scale), the TimeInterval implementations and the whole TearSheetGenerator: calculate refines the "
-              "documented quotient with the zero-risk conventions (MAX / MIN / 0); scale is multiplication by law(target/current) with law = sqrt for the "
-              "three ratios and the identity for RateOfReturn, for every law: identity on the same interval, scale-then-scale = scale, round trip, sign, "
-              "monotonicity, bounds, saturation behaviour, exactness of whole-second intervals and a bound for truncated ones; the tear sheet of any "
-              "history of closed positions carries calculate-then-scale of the whole-dataset mean / standard deviations (C17) and the max drawdown (C18) "
-              "over the trading period. Witness theorems record that scale does not preserve the zero-risk sentinels (Decimal::MIN becomes Decimal::MAX).")
+LEVEL_TEXT = ("Sub-check of C16. 62 Lean theorems (lean/BarterModel/Props/C16M.lean) over a function-for-function model of SharpeRatio / SortinoRatio / "
+              "CalmarRatio / RateOfReturn (calculate, scale), the TimeInterval implementations and the whole TearSheetGenerator (init, update_from_position, "
+              "generate; composed from the C17 DataSetSummary model, the C18 drawdown generators and C16's WinRate / ProfitFactor). Decimal::sqrt is abstract: "
+              "every scale theorem holds for an arbitrary law (sqrt for the ratios, identity for RateOfReturn) and names the property of the law it needs at the "
+              "arguments involved. Full strength, all inputs: calculate refines the documented quotient with the zero-risk conventions MAX / MIN / 0 "
+              "(sharpe/sortino/calmar/ror_calculate_refines), sign and monotonicity in the mean incl. the conventions (sortino/calmar/sharpe_sign, *_mono_mean), "
+              "|drawdown| (calmar_abs_drawdown), dependence on the excess only (calculate_excess_only); scale = multiplication by law(|T|/|S|) when the product fits "
+              "(scale_value, ror_scale_linear, *_daily_to_annual252), always within [MIN, MAX] (scale_in_range), same interval = identity (scale_same_interval), "
+              "scale-then-scale = scale and round trip (scale_scale, scale_round_trip, ror_*), sign / order preservation with the exact proviso (scale_nonneg, "
+              "scale_nonpos, scale_mono, scale_mono_target), the IID justification of the root (sharpe_scaling_is_iid_consistent), interval facts "
+              "(named_interval_secs, secs_truncates, periods_daily_annual). Saturation theorems state what unwrap_or(Decimal::MAX) does: any overflow, negative included, "
+              "gives MAX (scale_saturates, scale_negative_overflow_flips_sign); Decimal::MAX survives factors >= 1 and shrinks to a finite number below 1 "
+              "(scale_max_preserved, scale_max_lost); Decimal::MIN becomes Decimal::MAX for factors > 1 (scale_min_becomes_max, very_bad_reported_as_very_good, "
+              "scale_deviates_from_spec_on_min, sheet_sortino_very_bad_is_max). Tear sheet, every history (induction, reusing run_eq_specSummary of C17 and "
+              "first_generate_report of C18): the generated sheet carries calculate-then-scale of the whole-dataset mean, the population std-dev of all / of the "
+              "negative returns and the max drawdown of the cumulative PnL curve over max(now-start, 1 s) (sheet_refines, sheet_factor, sheet_sharpe_value, "
+              "sheet_ror_value), C16's win rate / profit factor (sheet_win_rate_profit_factor), independent of interleaved generate calls for the six fields that do "
+              "not read the drawdown generators (sheet_any_interleaving). Partial (named _partial): refinement of scale to the extended-value spec holds on "
+              "whole-second intervals, finite fitting values only (scale_refines_spec_partial, ror_scale_refines_spec_partial); truncated intervals are bounded "
+              "(periods_truncation_bounds); on the sentinels the refinement is false (witness theorems above).")
 LEVEL_NOTE = ("Trusted: Lean kernel; axioms propext/Classical.choice/Quot.sound only; the hand-written model (tied by sampled correspondence on every run); "
               "harness and driver. Exact rationals instead of rust_decimal; Decimal::sqrt abstract in the theorems.")
